@@ -40,7 +40,13 @@ impl<'n> TryFromNode<'n> for Field {
         target_namespace.clone_from(&doc.current_target_namespace);
 
         let is_attribute = node.tag_name().name() == "attribute";
-        let parent_is_optional = node.parent().and_then(|n| n.attribute("minOccurs")) == Some("0");
+        // the sequences and choices between this member and its type definition: their occurrence applies to the member
+        let particles = || {
+            node.ancestors()
+                .skip(1)
+                .take_while(|n| matches!(n.tag_name().name(), "sequence" | "choice"))
+        };
+        let parent_is_optional = particles().any(|n| n.attribute("minOccurs") == Some("0"));
         let is_optional = if is_attribute {
             node.attribute("use") != Some("required")
         } else {
@@ -48,9 +54,9 @@ impl<'n> TryFromNode<'n> for Field {
         };
         // any maxOccurs other than 1 (a number or "unbounded") means that the member may repeat
         let repeats = |n: &Node| n.attribute("maxOccurs").is_some_and(|max| max != "1" && max != "0");
-        let parent_is_vec = node.parent().is_some_and(|n| repeats(&n));
+        let parent_is_vec = particles().any(|n| repeats(&n));
         let is_vec = repeats(&node) || parent_is_vec;
-        let is_choice = node.parent().is_some_and(|n| n.tag_name().name() == "choice");
+        let is_choice = particles().any(|n| n.tag_name().name() == "choice");
 
         // check if this is an any type
         if node.tag_name().name() == "any" {
@@ -95,7 +101,6 @@ impl<'n> TryFromNode<'n> for Field {
                 .as_ref()
                 .ok_or_else(|| WriterError::NodeNotFound(ref_name.to_string()))?;
 
-            let is_choice = node.parent().is_some_and(|n| n.tag_name().name() == "choice");
             let module = namespace.as_ref().map(|n| n.rust_mod_name.clone());
 
             let xml_name = ref_node.xml_name().ok_or(WriterError::InvalidReference)?;
